@@ -693,10 +693,12 @@ impl VirtualFileSystem for Memfs {
     /// ```
     fn all_dirs<T: AsRef<Path>>(&self, path: T) -> RvResult<Vec<PathBuf>> {
         let mut paths: Vec<PathBuf> = vec![];
-        if !self.is_dir(&path) {
+        // Check and take the snapshot under a single guard so the listing is atomic
+        let guard = self.read_guard();
+        if !self._is_dir(&guard, &path) {
             return Err(PathError::is_not_dir(&path).into());
         }
-        for entry in self.entries(path)?.min_depth(1).sort_by_name().dirs() {
+        for entry in self._entries(&guard, path)?.min_depth(1).sort_by_name().dirs() {
             let entry = entry?;
             paths.push(entry.path_buf());
         }
@@ -726,10 +728,12 @@ impl VirtualFileSystem for Memfs {
     /// ```
     fn all_files<T: AsRef<Path>>(&self, path: T) -> RvResult<Vec<PathBuf>> {
         let mut paths: Vec<PathBuf> = vec![];
-        if !self.is_dir(&path) {
+        // Check and take the snapshot under a single guard so the listing is atomic
+        let guard = self.read_guard();
+        if !self._is_dir(&guard, &path) {
             return Err(PathError::is_not_dir(&path).into());
         }
-        for entry in self.entries(path)?.min_depth(1).sort_by_name().files() {
+        for entry in self._entries(&guard, path)?.min_depth(1).sort_by_name().files() {
             let entry = entry?;
             paths.push(entry.path_buf());
         }
@@ -761,10 +765,12 @@ impl VirtualFileSystem for Memfs {
     /// ```
     fn all_paths<T: AsRef<Path>>(&self, path: T) -> RvResult<Vec<PathBuf>> {
         let mut paths: Vec<PathBuf> = vec![];
-        if !self.is_dir(&path) {
+        // Check and take the snapshot under a single guard so the listing is atomic
+        let guard = self.read_guard();
+        if !self._is_dir(&guard, &path) {
             return Err(PathError::is_not_dir(&path).into());
         }
-        for entry in self.entries(path)?.min_depth(1).sort_by_name() {
+        for entry in self._entries(&guard, path)?.min_depth(1).sort_by_name() {
             let entry = entry?;
             paths.push(entry.path_buf());
         }
@@ -1176,10 +1182,12 @@ impl VirtualFileSystem for Memfs {
     /// ```
     fn dirs<T: AsRef<Path>>(&self, path: T) -> RvResult<Vec<PathBuf>> {
         let mut paths: Vec<PathBuf> = vec![];
-        if !self.is_dir(&path) {
+        // Check and take the snapshot under a single guard so the listing is atomic
+        let guard = self.read_guard();
+        if !self._is_dir(&guard, &path) {
             return Err(PathError::is_not_dir(&path).into());
         }
-        for entry in self.entries(path)?.min_depth(1).max_depth(1).sort_by_name().dirs() {
+        for entry in self._entries(&guard, path)?.min_depth(1).max_depth(1).sort_by_name().dirs() {
             let entry = entry?;
             paths.push(entry.path_buf());
         }
@@ -1271,10 +1279,12 @@ impl VirtualFileSystem for Memfs {
     /// ```
     fn files<T: AsRef<Path>>(&self, path: T) -> RvResult<Vec<PathBuf>> {
         let mut paths: Vec<PathBuf> = vec![];
-        if !self.is_dir(&path) {
+        // Check and take the snapshot under a single guard so the listing is atomic
+        let guard = self.read_guard();
+        if !self._is_dir(&guard, &path) {
             return Err(PathError::is_not_dir(&path).into());
         }
-        for entry in self.entries(path)?.min_depth(1).max_depth(1).sort_by_name().files() {
+        for entry in self._entries(&guard, path)?.min_depth(1).max_depth(1).sort_by_name().files() {
             let entry = entry?;
             paths.push(entry.path_buf());
         }
@@ -1744,10 +1754,12 @@ impl VirtualFileSystem for Memfs {
     /// ```
     fn paths<T: AsRef<Path>>(&self, path: T) -> RvResult<Vec<PathBuf>> {
         let mut paths: Vec<PathBuf> = vec![];
-        if !self.is_dir(&path) {
+        // Check and take the snapshot under a single guard so the listing is atomic
+        let guard = self.read_guard();
+        if !self._is_dir(&guard, &path) {
             return Err(PathError::is_not_dir(&path).into());
         }
-        for entry in self.entries(path)?.min_depth(1).max_depth(1).sort_by_name() {
+        for entry in self._entries(&guard, path)?.min_depth(1).max_depth(1).sort_by_name() {
             let entry = entry?;
             paths.push(entry.path_buf());
         }
